@@ -63,7 +63,7 @@ def _gen_line(rng, cls, schemes, used):
         if (u, realm) in used and rng.random() < 0.8:
             kind = "dup"
         used.add((u, realm))
-        return {"k": kind, "user": u, "realm": realm, "scheme": rng.choice(schemes), "pw": rng.choice(PWS),
+        return {"k": kind, "user": u, "realm": realm, "scheme": rng.choice(schemes) if rng.random() > 0.04 else "@empty", "pw": rng.choice(PWS),
                 "lead": rng.choice(["", "", "", "", " ", "\t"]), "eol": rng.choice(["\n", "\n", "\n", "\r\n", " \n"])}
     if r < 0.78:
         return {"k": "text", "v": rng.choice(["# comment", "#", "  # indented", "# user:hash", "#a:b:c"]), "eol": rng.choice(["\n", "\n", "\r\n"])}
@@ -123,7 +123,7 @@ def generate(rng, prop, tier):
              "tick", "tick", "bad_name"]
     if cls == "htdigest":
         kinds += ["delete_realm", "realms"]
-    kinds += ["external_edit"] * 3 + ["save_as", "load_from", "rebind"]
+    kinds += ["external_edit"] * 3 + ["save_as", "load_from", "rebind", "toggle"]
     if faults_on:
         kinds += ["io_fault"] * 3
     for _ in range(nops):
@@ -147,6 +147,9 @@ def generate(rng, prop, tier):
             ops.append({"op": k, "o": o, "user": u, "realm": realm, "pw": rng.choice(PWS), "right": rng.random() < 0.6, "bytes": as_bytes})
         elif k in ("users", "realms", "load", "load_if_changed", "save", "save_as", "load_from", "rebind"):
             ops.append({"op": k, "o": o, "realm": realm})
+        elif k == "toggle":
+            # settings are plain attributes: an application may flip them in the middle of a history
+            ops.append({"op": k, "o": o, "what": rng.choice(["autosave", "autosave", "return_unicode"])})
         elif k == "load_string":
             ops.append({"op": k, "o": o, "lines": _gen_lines(rng, cls, schemes, rng.choice([0, 2, 4, 7]), allow_bad=rng.random() < 0.15),
                         "as_text": rng.random() < 0.3})
@@ -260,6 +263,8 @@ class _W:
 
     def make_hash(self, scheme, pw, user=None, realm=None):
         """a hash of pw by one scheme, at minimum cost, made by the unconfigured handler"""
+        if scheme == "@empty":
+            return b""  # a record whose hash field is empty ('user:'): the user exists, nobody's password matches
         with warnings.catch_warnings():
             warnings.simplefilter("ignore")
             if scheme == "htdigest":
@@ -373,7 +378,7 @@ class _W:
             if ht is None:
                 model = DocModel(self.nf)
                 ht = C(**kw)
-        return {"ht": ht, "model": model, "bound": bound, "autosave": bound and autosave, "path": PATH if bound else None}
+        return {"ht": ht, "model": model, "bound": bound, "autosave": bound and autosave, "path": PATH if bound else None, "ru": cfg["return_unicode"]}
 
     def _make_objects(self):
         cfg = self.cfg
@@ -605,7 +610,10 @@ class _W:
             ctx.check(r == ("ok", None), "C16", "check-password-unknown-user", f"check_password({a}) for unknown user -> {r[:2]}")
             return
         if known is None:
-            # a hash the harness did not make (external garbage): only 'no internal error' is judged
+            # a hash the harness did not make (external garbage, an empty field): 'no internal error' is judged, and that a user who
+            # IS in the database is never reported as unknown (None is the answer for unknown users only)
+            ctx.check(r != ("ok", None), "C16", "check-password-unknown-user",
+                      f"user {key!r} is in the database (hash field {stored!r}) but check_password({a}) answered None")
             if r[0] == "exc" and not isinstance(r[2], (ValueError, TypeError)):
                 ctx.fail("C16", "operation-raises", f"check_password on foreign record {stored!r} raised {r[1]}: {r[2]}", op="check_password", exc=r[1])
             cur = self._peek(ht, key)
@@ -642,7 +650,7 @@ class _W:
         ctx = self.ctx
         ht, model = o["ht"], o["model"]
         k = op["op"]
-        ru = self.cfg["return_unicode"]
+        ru = o.get("ru", self.cfg["return_unicode"])
 
         def dec_(b):
             return b.decode(self.enc) if ru else b
@@ -840,6 +848,19 @@ class _W:
             ctx.nontrivial = True
         self.verify_state(o, "load_from")
 
+    def op_toggle(self, op, o):
+        ht = o["ht"]
+        if op["what"] == "autosave":
+            if not o["bound"]:
+                return
+            o["autosave"] = not o["autosave"]
+            ht.autosave = o["autosave"]
+        else:
+            o["ru"] = not o.get("ru", self.cfg["return_unicode"])
+            ht.return_unicode = o["ru"]
+        self.features.add("toggle-" + op["what"])
+        self.verify_state(o, "toggle")
+
     def op_rebind(self, op, o):
         """assigning .path binds the object to another file and forgets the remembered mtime"""
         if not o["bound"]:
@@ -978,6 +999,8 @@ def execute(program, ctx):
             w.op_load_from(op, o)
         elif k == "rebind":
             w.op_rebind(op, o)
+        elif k == "toggle":
+            w.op_toggle(op, o)
         elif k == "tick":
             w.fs.tick(op["dt"])
             ctx.sim_time += abs(op["dt"])
